@@ -1799,7 +1799,7 @@ func (ls *LState) ObjLen(v1 LValue) int {
 		return len(string(v1.(LString)))
 	}
 	op := ls.metaOp1(v1, "__len")
-	if op.Type() == LTFunction {
+	if op != LNil {
 		ls.Push(op)
 		ls.Push(v1)
 		ls.Call(1, 1)
